@@ -1,5 +1,5 @@
 import PebblesVerif.Props.C17
-import PebblesVerif.Proofs.SubFlat4
+import PebblesVerif.Proofs.SubFlat5
 /-!
 # C17, end to end, for the flat subscription family
 
@@ -95,6 +95,73 @@ theorem C17_flat_event_stitched {c : PCtx} {A B T s : String} {fs : List Flat.Fi
     · simp only [SubStitch.pipelineOf, hex']
     · simp [Flat.rqOf, header, Flat.stepB, Step.ip]
 
+/-- **Once, in order, fully stitched — for a whole history of events.** The family and the
+    federation are those of `C17_flat_event_stitched`; `D` is the shared entity graph behind the
+    services, and the subscription lives through a history of `n` events, the `k`-th about the entity
+    `es[k]` of `D` (any `n`, entities may repeat). At the moment of the `k`-th event the data is
+    `SubFlat.atEvent D s es[k].id` (the graph, `s` referring to that entity), the upstream `A` emits the
+    reference evaluation of the subscribed step over ITS schema for that data, and `rs[k]` is the
+    single-server answer of the subscription operation for that data. The entry is built ONCE
+    (`SubStitch.newEntry`: one plan, one pipeline `p`, child steps answered by the services over `D`).
+
+    Then the `n` events are objects, and
+    * the frames of the entry (`SubEntry.framesOf`) are exactly `n` frames, all under the
+      subscription's `id`, the `k`-th with no errors and the payload `{ s: { …ds[k] } }`, `ds[k]` the
+      single-server answer `rs[k]` up to key order — the helper `id` scrubbed;
+    * under EVERY interleaving of the upstream reader and `Listen` (`SubEntry.Reach`), once nothing is
+      in flight and everything has been read, exactly these frames have been written, in this order
+      (`C17_frames`), and at every earlier moment a prefix of them (`C17_frames_prefix`). -/
+theorem C17_flat_history_stitched {c : PCtx} {A B T s : String} {fs : List Flat.FieldSpec} (h : SubFlat.Fam c A B T s fs)
+    (svcs : List Exec.Svc) (SA SB : Schema) (D : Spec.Data) (es : List Spec.Entity) (rs : List (List (String × J)))
+    (id : String)
+    (hs1 : '#' ∉ s.toList) (hs2 : ':' ∉ s.toList) (hsne : s ≠ "")
+    (hnne : ∀ n ∈ Flat.namesOf fs, n ≠ "")
+    (hsB : svcs.find? (·.url == B) = some ⟨B, SB⟩)
+    (hSB : ∃ td, SB.type? T = some td ∧ td.kind = .object)
+    (hlen : rs.length = es.length)
+    (hes : ∀ e ∈ es, e.id ≠ "" ∧ D.entity? e.id = some e ∧ e.type = T)
+    (href : ∀ (k : Nat) (e : Spec.Entity) (r : List (String × J)), es[k]? = some e → rs[k]? = some r →
+      Spec.eval c.schema (SubFlat.atEvent D s e.id) ⟨.subscription, "", [], [Flat.Q T s fs]⟩ [] = some (.obj [(s, .obj r)])) :
+    ∃ (upstream : Step) (p : SubEntry.Pipeline) (events : List J) (ds : List (List (String × J))),
+      SubStitch.newEntry c {} ⟨.subscription, "", [], [Flat.Q T s fs]⟩ none (Exec.specDownstream svcs D) = .ok (upstream, p)
+      -- the events, as their owner emits them
+      ∧ events.map some
+          = es.map (fun e => Spec.eval SA (SubFlat.atEvent D s e.id) ⟨.subscription, "", [], upstream.sels⟩ [])
+      -- the frames: one per event, in order, under the id, stitched
+      ∧ SubEntry.framesOf id p (events.map (fun ev => .data ⟨some ev, []⟩))
+          = ds.map (fun d => ⟨id, ⟨some (.obj [(s, .obj d)]), []⟩⟩)
+      ∧ ds.length = es.length
+      ∧ (∀ (k : Nat) (d r : List (String × J)), ds[k]? = some d → rs[k]? = some r → d.Perm r)
+      -- … written exactly once, in order, under every interleaving
+      ∧ (∀ st, SubEntry.Reach id p (events.map (fun ev => .data ⟨some ev, []⟩)) st →
+            (∃ rest, st.out ++ rest = ds.map (fun d => ⟨id, ⟨some (.obj [(s, .obj d)]), []⟩⟩))
+            ∧ (st.l = none → st.rq = none → (st.msgs = [] ∨ st.rqDone = true) →
+                st.out = ds.map (fun d => ⟨id, ⟨some (.obj [(s, .obj d)]), []⟩⟩))) := by
+  obtain ⟨events, ds, hev, hprep, hdl, hperm⟩ :=
+    SubFlat.flat_history_stitched (A := A) h svcs SA SB D hs1 hs2 hsne hnne hsB hSB es rs hlen hes href
+  have hentry := SubFlat.newEntry_eq h (Exec.specDownstream svcs D)
+  have hframes : SubEntry.framesOf id
+      (SubStitch.pipelineOf c {} none (Exec.specDownstream svcs D) (SubFlat.rootStep A B T s fs) (SubFlat.scrubOf T s))
+      (events.map (fun ev => .data ⟨some ev, []⟩))
+        = ds.map (fun d => ⟨id, ⟨some (.obj [(s, .obj d)]), []⟩⟩) := by
+    have h1 := SubEntry.C17_frames_events id
+      (SubStitch.pipelineOf c {} none (Exec.specDownstream svcs D) (SubFlat.rootStep A B T s fs) (SubFlat.scrubOf T s))
+      (events.map SubFlat.respOf)
+    simp only [List.map_map] at h1
+    have h2 : (SubEntry.UpMsg.data ∘ SubFlat.respOf) = (fun ev => SubEntry.UpMsg.data ⟨some ev, []⟩) := rfl
+    rw [h2] at h1
+    rw [h1]
+    have h3 := congrArg (List.map (fun pl => (⟨id, pl⟩ : SubEntry.Frame))) hprep
+    simp only [List.map_map] at h3
+    exact h3
+  refine ⟨_, _, events, ds, hentry, hev, hframes, hdl, hperm, ?_⟩
+  intro st hreach
+  refine ⟨?_, ?_⟩
+  · obtain ⟨rest, hr⟩ := SubEntry.C17_frames_prefix hreach
+    exact ⟨rest, by rw [hr, hframes]⟩
+  · intro hl hrq hm
+    rw [SubEntry.C17_frames hreach hl hrq hm, hframes]
+
 section Instance
 open SubFlat.Example
 
@@ -115,6 +182,31 @@ theorem C17_flat_event_stitched_instance : ∃ (upstream : Step) (p : SubEntry.P
       (by decide) (by decide) (by decide) (by decide) (by decide) (by rfl) ⟨animalT, by rfl, rfl⟩ (by rfl) (by rfl) rfl
       reference
   exact ⟨up, p, a, d, h1, h2, h3, h4, h5.mpr ⟨("age", tStr, true), by simp [SubFlat.Example.fs], rfl⟩⟩
+
+/-- non-vacuity of `C17_flat_history_stitched`: three events (about `e1`, `e2`, `e1` again) on the
+    concrete federation; the frames are also checked by evaluation (`#guard` in `Proofs/SubFlat5.lean`) -/
+theorem C17_flat_history_stitched_instance : ∃ (upstream : Step) (p : SubEntry.Pipeline) (events : List J)
+    (ds : List (List (String × J))),
+    SubStitch.newEntry ctx {} ⟨.subscription, "", [], [Flat.Q "Animal" "animalChanged" SubFlat.Example.fs]⟩ none
+        (Exec.specDownstream svcs (dataOf e1)) = .ok (upstream, p)
+    ∧ events.length = 3
+    ∧ SubEntry.framesOf "sub-1" p (events.map (fun ev => .data ⟨some ev, []⟩))
+        = ds.map (fun d => ⟨"sub-1", ⟨some (.obj [("animalChanged", .obj d)]), []⟩⟩)
+    ∧ (∀ (k : Nat) (d r : List (String × J)), ds[k]? = some d → [expected, expected2, expected][k]? = some r → d.Perm r) := by
+  obtain ⟨up, p, events, ds, h1, h2, h3, -, h5, -⟩ :=
+    C17_flat_history_stitched fam svcs schemaA schemaB (dataOf e1) [e1, e2, e1] [expected, expected2, expected] "sub-1"
+      (by decide) (by decide) (by decide) (by decide) (by rfl) ⟨animalT, by rfl, rfl⟩ rfl
+      (by intro e he; simp only [List.mem_cons, List.not_mem_nil, or_false] at he
+          rcases he with rfl | rfl | rfl <;> exact ⟨by decide, by rfl, rfl⟩)
+      (by intro k e r he hr
+          match k with
+          | 0 => cases he; cases hr; rfl
+          | 1 => cases he; cases hr; rfl
+          | 2 => cases he; cases hr; rfl
+          | k + 3 => simp at he)
+  refine ⟨up, p, events, ds, h1, ?_, h3, h5⟩
+  have := congrArg List.length h2
+  simpa using this
 
 end Instance
 
